@@ -7,6 +7,7 @@ tables with an in-package MRO and discovery of numba kernels.
 from __future__ import annotations
 
 import ast
+import re
 import os
 from dataclasses import dataclass, field
 from fractions import Fraction
@@ -82,7 +83,8 @@ class Module:
         with open(path, encoding="utf-8") as fh:
             self.source = fh.read()
         try:
-            self.tree = ast.parse(self.source, filename=path)
+            self.tree = _canon_compares(
+                ast.parse(self.source, filename=path))
         except SyntaxError as se:
             raise AnalysisError(f"cannot parse {relpath}: {se}") from se
         #: local name -> (module name, attribute or None)
@@ -652,6 +654,43 @@ def inline_locals(fn: ast.AST, e: ast.expr, depth: int = 6,
                 return T(self.d - 1).visit(copy.deepcopy(sa_[n.id]))
             return n
     return ast.fix_missing_locations(T(depth).visit(copy.deepcopy(e)))
+
+
+_CONSTNAME = re.compile(r"^_*[A-Z][A-Z0-9_]*$")
+
+
+def _constlike(e: ast.AST) -> bool:
+    if isinstance(e, ast.Constant):
+        return True
+    if isinstance(e, ast.UnaryOp) and isinstance(
+            e.op, (ast.USub, ast.UAdd)) and isinstance(
+            e.operand, ast.Constant):
+        return True
+    if isinstance(e, ast.Name):
+        return bool(_CONSTNAME.match(e.id))
+    if isinstance(e, ast.Attribute):
+        return bool(_CONSTNAME.match(e.attr))
+    return False
+
+
+class _CanonCmp(ast.NodeTransformer):
+    """`CONST op x` -> `x op' CONST` for single comparisons ("Yoda"
+    conditions are read like the usual spelling); positions are kept."""
+    _M = {ast.Lt: ast.Gt, ast.Gt: ast.Lt, ast.LtE: ast.GtE,
+          ast.GtE: ast.LtE, ast.Eq: ast.Eq, ast.NotEq: ast.NotEq}
+
+    def visit_Compare(self, n: ast.Compare) -> ast.AST:
+        self.generic_visit(n)
+        if len(n.ops) == 1 and type(n.ops[0]) in self._M and _constlike(
+                n.left) and not _constlike(n.comparators[0]):
+            return ast.copy_location(ast.Compare(
+                left=n.comparators[0], ops=[self._M[type(n.ops[0])]()],
+                comparators=[n.left]), n)
+        return n
+
+
+def _canon_compares(tree: ast.Module) -> ast.Module:
+    return ast.fix_missing_locations(_CanonCmp().visit(tree))
 
 
 class _Enum2Range(ast.NodeTransformer):
